@@ -1,6 +1,10 @@
 """C10 -- FixedString never touches memory outside itself and stays well-formed."""
 from . import core, fs, fs_obs
 from .core import Job
+import os
+
+# methods that finish at L = 255 / 256 within the thorough budget (measured with CV_C10_BIG=1)
+BIG_OK = set()
 
 
 class Unit(fs.Unit):
@@ -24,6 +28,17 @@ def jobs(unit, tier, only=None):
                            fs.make_build(unit, m, L, K, False, methods), backend='sat',
                            unwind=K + L + 4, timeout=300, instance={'L': L, 'K': K},
                            bounded=None))
+    # the 255/256 length-type boundary (uint8_t / uint16_t length field): "light" contracts (invariant + safety, no content
+    # ghosts) for the methods that finish there (measured); thorough tier only
+    if tier == 'thorough' or os.environ.get('CV_C10_BIG'):
+        for L in (255, 256):
+            unit.witness_size_type(L)
+            unit.object_size(L, unit.scratch.dir)
+            for m in methods:
+                if os.environ.get('CV_C10_BIG') or m.id in BIG_OK:
+                    out.append(Job('c10_L%d_%s' % (L, m.id), 'FixedString<L>::' + m.call, 'cw_' + m.id,
+                                   fs.make_build(unit, m, L, 4, False, methods, light=True), backend='sat', unwind=L + 8,
+                                   timeout=int(os.environ.get('CV_C10_BIG_TIMEOUT', 1800)), instance={'L': L, 'K': 4, 'light': True}, object_bits=12))
     if only:
         out = [j for j in out if only in j.name]
     return out
